@@ -985,9 +985,10 @@ def b64encode_model(data, urlsafe=False):
     return CStr([z3.simplify(c) if z3.is_expr(c) else c for c in out], is_bytes=True)
 
 
-def b64decode_model(data, urlsafe=False):
+def b64decode_model(data, urlsafe=False, strict=False):
     """binascii.a2b_base64 in its default, non-strict mode: characters outside the alphabet are discarded,
-    decoding stops at the padding; incomplete trailing groups raise binascii.Error"""
+    decoding stops at the padding; incomplete trailing groups raise binascii.Error.  strict (validate=True): a character
+    outside the alphabet is an error"""
     data = _bytes_of(data)
     sext = []
     npad = 0
@@ -998,11 +999,13 @@ def b64decode_model(data, urlsafe=False):
             if len(sext) % 4 >= 2 and (len(sext) % 4 == 3 or npad >= 2):
                 break
             continue
-        if npad and len(sext) % 4 != 0:
-            npad = 0
         v = _dec6(c, urlsafe)
         if E.branch(v >= 0):
+            if npad and len(sext) % 4 != 0:
+                npad = 0            # (CPython resets the pad count only at a character of the alphabet)
             sext.append(SInt(z3.simplify(v)))
+        elif strict:
+            raise _binascii.Error('Only base64 data is allowed')
         # else: discarded (non-alphabet character)
     rem = len(sext) % 4
     if rem == 1:
@@ -1054,7 +1057,9 @@ def _binary_models(f, slf, args, kw):
     if f is _b64.urlsafe_b64encode:
         return b64encode_model(args[0], urlsafe=True)
     if f is _b64.b64decode:
-        return b64decode_model(args[0])
+        if len(args) > 1 and args[1] is not None:
+            raise Unsupported('b64decode with altchars')
+        return b64decode_model(args[0], strict=bool(kw.get('validate', False)))
     if f is _b64.urlsafe_b64decode:
         return b64decode_model(args[0], urlsafe=True)
     if f is _binascii.hexlify:
